@@ -238,16 +238,16 @@ type ArtelaOpts struct {
 	BeforeInv     func(i int, evm *avm.EVM, st *state.StateDB)
 	Slots         []common.Hash
 	NoTxEvents    bool
-	NoRoot        bool // skip IntermediateRoot (keeps the journal intact)
+	NoRoot        bool             // skip IntermediateRoot (keeps the journal intact)
 	ExtraAddrs    []common.Address // additional accounts to observe after each invocation
-	JPOverride    *bool // force join points on/off for all invocations
-	NullTracer    bool  // install a do-nothing debug tracer (debug mode without recording)
+	JPOverride    *bool            // force join points on/off for all invocations
+	NullTracer    bool             // install a do-nothing debug tracer (debug mode without recording)
 	// DigestAt, if set, is evaluated at every transfer / can-transfer wrapper call
 	// (before the transfer) and stored in the event.
 	DigestAt func(st *state.StateDB) string
 	// InnerFor, if set, supplies a fresh real tracer per invocation (Debug must be on).
 	InnerFor func(i int, evm *avm.EVM, inv *Invocation) avm.EVMLogger
-	Ctx           context.Context
+	Ctx      context.Context
 }
 
 type ArtelaRun struct {
